@@ -82,28 +82,30 @@ type State struct {
 	trace      []string
 
 	// threads
-	threads     []*Thread
-	cur         *Thread
-	preemptions int
-	finished    chan struct{}
-	abort       interface{}
-	syncObjs    map[*Value]*syncObj
-	now         int64
-	timers      []*Timer
-	schedule    []string
-	symbolicPC  bool
-	concrete    map[string]string // replay mode: name -> value
-	quiesceHook []Value
-	nextObjID   int
-	accessLog   map[interface{}]*accessInfo
-	races       []string
-	timerByPtr  map[*Value]*Timer
-	ptrIDs      map[interface{}]uint64
-	lenientFmt  int
-	jsonSyms    []jsonSym
-	jsonDecoders map[*Value]*[]byte
-	hashGlobals []*ssa.Global
-	startThread func(t *Thread, body func())
+	threads       []*Thread
+	cur           *Thread
+	preemptions   int
+	finished      chan struct{}
+	abort         interface{}
+	syncObjs      map[*Value]*syncObj
+	now           int64
+	timers        []*Timer
+	schedule      []string
+	symbolicPC    bool
+	concrete      map[string]string // replay mode: name -> value
+	quiesceHook   []Value
+	nextObjID     int
+	accessLog     map[interface{}]*accessInfo
+	races         []string
+	timerByPtr    map[*Value]*Timer
+	ptrIDs        map[interface{}]uint64
+	lenientFmt    int
+	jsonSyms      []jsonSym
+	jsonDecoders  map[*Value]*[]byte
+	jsonUseNumber map[*Value]bool
+	jsonNumMode   bool
+	hashGlobals   []*ssa.Global
+	startThread   func(t *Thread, body func())
 }
 
 type PathResult struct {
@@ -536,7 +538,7 @@ func (eng *Engine) runPath(ps *PathSolver, entry *ssa.Function, prefix []Dec, co
 		fuel: eng.cfg.Fuel, nameSeq: map[string]int{},
 		covers: map[string]bool{}, asserts: map[string]int{}, funcs: map[string]bool{}, intrHits: map[string]bool{},
 		finished: make(chan struct{}), syncObjs: map[*Value]*syncObj{},
-		now:      1_000_000_000_000, concrete: concrete,
+		now: 1_000_000_000_000, concrete: concrete,
 		accessLog: map[interface{}]*accessInfo{}, timerByPtr: map[*Value]*Timer{},
 		hashGlobals: eng.hashGlobals, jsonDecoders: map[*Value]*[]byte{},
 	}
